@@ -102,6 +102,11 @@ def c11(tier, seed):
         {'line': './pargs $(sh -c "echo o; echo e >&2") 2> err; cat err', 'files': {'pargs': PARGS}, 'expect_stdout': '[o]\n', 'area': 'substitution:stderr'},
         {'line': "./pargs '$(echo a)' '`echo a`'", 'files': {'pargs': PARGS}, 'expect_stdout': _argv(['$(echo a)', '`echo a`']), 'area': 'substitution:single-quoted'},
         {'line': 'alias zz="echo al"; ./pargs $(zz)', 'files': {'pargs': PARGS}, 'expect_stdout': _argv(['al']), 'area': 'substitution:alias'},
+        # KNOWN FINDINGS (recorded, not repaired) -- see known_findings.jsonl
+        {'line': "./pargs $(echo '{a,b}')", 'files': {'pargs': PARGS}, 'expect_stdout': _argv(['{a,b}']), 'area': 'substitution:brace-pass-acts-on-the-inner-command-text'},
+        {'line': 'mkdir dd; ./pargs "$(cd dd)"; basename $PWD', 'files': {'pargs': PARGS}, 'expect_stdout_last_line_not': 'dd', 'area': 'substitution:builtin-changes-the-shell-state'},
+        {'line': "X=$(echo '\"hi\"'); ./pargs \"$X\"", 'files': {'pargs': PARGS}, 'expect_stdout': _argv(['"hi"']), 'area': 'substitution:assignment-value-unquoted-again'},
+        {'line': "./pargs \"$(sh -c 'head -c 100000 /dev/zero >&2; echo done')\"", 'files': {'pargs': PARGS}, 'expect_stdout': _argv(['done']), 'timeout': 3, 'area': 'substitution:stderr-larger-than-a-pipe'},
         # the inner command is planned with its own quoting: a single-quoted $NAME inside it is not expanded by the outer line
         {'line': "A=val; ./pargs x$(echo '$A') $(echo $A)y \"$(echo '$A')z\"", 'files': {'pargs': PARGS}, 'expect_stdout': _argv(['x$A', 'valy', '$Az']), 'area': 'substitution:inner-quoting'},
         {'line': './pargs é$(echo x)z "naïve $(echo x) end" é`echo y`z $(echo éé)', 'files': {'pargs': PARGS}, 'expect_stdout': _argv(['éxz', 'naïve x end', 'éyz', 'éé']), 'area': 'substitution:multi-byte-text-around'},
@@ -280,6 +285,8 @@ def c13(tier, seed):
                     'expect_stdout': _argv([v + 'x', 'x' + v, 'x' + v, v + v + v]), 'expect_only_files': ['pargs'], 'area': 'data:variable:inside-substitution-in-a-word'})
     for v in ('a>b', 'x|y'):
         out.append({'line': "V='%s'; ./pargs $(echo $V $(echo 1)) \"$(echo $(echo $V))\"" % v, 'files': {'pargs': PARGS}, 'expect_stdout': _argv([v + ' 1', v]), 'expect_only_files': ['pargs'], 'area': 'data:variable:inside-nested-substitution'})
+    # KNOWN FINDING (recorded, not repaired): a value that contains $(...) or backquotes is executed by the later substitution pass
+    out.append({'line': "V='$(touch pwned)'; ./pargs $V \"$V\"", 'files': {'pargs': PARGS}, 'expect_stdout': _argv(['$(touch pwned)', '$(touch pwned)']), 'expect_only_files': ['pargs'], 'area': 'data:value-with-substitution-syntax'})
     names = ['a>b', 'x;y', 'p|q', 'r&', '#h', '2>&1']
     files = dict({'pargs': PARGS}, **{n: '' for n in names})
     out.append({'line': './pargs *', 'files': files, 'expect_stdout': _argv(sorted(names + ['pargs'])), 'expect_only_files': sorted(names + ['pargs']), 'area': 'data:glob'})
@@ -370,6 +377,8 @@ def c03(tier, seed):
     out += [
         {'script': './st "a" 0; ./st \'b\' 3 && ./st c 0 || ./st "d" 5;./st e 0\n', 'files': {'st': ST}, 'expect_stdout': 'a\nb\nd\ne\n', 'expect_rc': 0, 'area': 'list:script:operators-after-quotes'},
         {'script': './st "a;b" 0;./st "c" 4\n', 'files': {'st': ST}, 'expect_stdout': 'a;b\nc\n', 'expect_rc': 4, 'area': 'list:script:operators-after-quotes'},
+        # KNOWN FINDING (recorded, not repaired): in a script an escaped list operator loses its backslash in the positional-parameter round trip
+        {'script': './st a\\;b 0 ; ./st c 4\n', 'files': {'st': ST}, 'expect_stdout': 'a;b\nc\n', 'expect_rc': 4, 'area': 'list:script:escaped-operator'},
         {'script': './st "C:\\\\" 0 && ./st b 3 ; ./st c 5\n', 'files': {'st': ST}, 'expect_stdout_any': ['C:\\\\\nb\nc\n', 'C:\\\nb\nc\n'], 'expect_rc': 5, 'area': 'list:script:quoted-word-ending-in-backslash'},
         {'script': "./st 'x\\' 0 || ./st no 0 ; ./st c 6\n", 'files': {'st': ST}, 'expect_stdout': 'x\\\nc\n', 'expect_rc': 6, 'area': 'list:script:quoted-word-ending-in-backslash'},
         {'script': './st "$1" 0; ./st "${2}" 0;./st "$@" 0\n', 'args': ['x', 'y z'], 'files': {'st': ST}, 'expect_stdout': 'x\ny z\nx y z\n', 'area': 'list:script:operators-after-quotes'},
@@ -485,6 +494,8 @@ def c09(tier, seed):
         {'line': 'export A=7; unset A; ./envp; ./pargs "[$A]"', 'files': F, 'expect_stdout': '[]\n[[]]\n', 'area': 'vars:unset'},
         {'line': 'A=7; unset A; ./pargs "[$A]"', 'files': F, 'expect_stdout': '[[]]\n', 'area': 'vars:unset'},
         {'line': "A='a b'; ./pargs \"$A\"", 'files': F, 'expect_stdout': '[a b]\n', 'area': 'vars:value-with-space'},
+        # KNOWN FINDING (recorded, not repaired): an assignment from a value that begins and ends with the same quote loses the quotes
+        {'line': "L='\"q\"'; M=$L; ./pargs \"$M\"", 'files': F, 'expect_stdout': '["q"]\n', 'area': 'vars:value-with-surrounding-quotes'},
         {'line': 'A="p=q:r"; ./pargs "$A"', 'files': F, 'expect_stdout': '[p=q:r]\n', 'area': 'vars:value-with-equals'},
         {'line': 'A=; ./pargs "[$A]"', 'files': F, 'expect_stdout': '[[]]\n', 'area': 'vars:empty-value'},
         {'line': 'export A="a b"; ./envp', 'files': F, 'expect_stdout': '[a b]\n', 'area': 'vars:export-value-with-space'},
@@ -621,6 +632,8 @@ def c02(tier, seed):
         {'line': 'echo b | cat | echo c', 'expect_stdout': 'c\n', 'area': 'pipeline:builtin-last'},
         {'line': 'echo b | cat', 'expect_stdout': 'b\n', 'area': 'pipeline:builtin-first'},
         {'line': 'echo x > n; echo a | sh -c "echo 1 >> n; cat" | cat; cat n', 'expect_stdout': 'a\nx\n1\n', 'area': 'pipeline:each-stage-once'},
+        # KNOWN FINDING (recorded, not repaired): a here-string larger than two pipe buffers in a stage that is not the last (the shell writes it before the next stage exists)
+        {'line': 'cat <<< "$(head -c 300000 /dev/zero | tr \\0 a)" | wc -c', 'expect_stdout': '300001\n', 'timeout': 4, 'area': 'pipeline:here-string-larger-than-the-pipes-in-a-non-last-stage'},
     ]
     return out
 
